@@ -940,7 +940,7 @@ theorem IsNextChange.shift {env : Env} {t u : Int} {r : Option Int} (h : IsNextC
 
 /-- `OpeningHours::state` over an abstract `Env` (`state ctx e t = stateG (envOf ctx e) t` by `rfl`) -/
 def stateG (env : Env) (t : Instant) : M Kind :=
-  if t + nsPerMin > instMax then .error "opening_hours.rs:state NaiveDateTime + TimeDelta overflowed"
+  if t ≥ instEnd then .ok .closed
   else match firstIntervalG env t (t + nsPerMin) with
     | .error p => .error p
     | .ok none => .ok .closed
@@ -962,17 +962,18 @@ theorem pointKind_of_range {env : Env} {t : Int} {tr : TimeRange} (h : pointRang
 
 theorem stateG_spec {env : Env} (ok : EnvOK env) (hb : BoundOK env) {t : Int} (hrep : t + nsPerMin ≤ instMax) :
     (t < instEnd → stateG env t = .ok (pointKind env t)) ∧ (instEnd ≤ t → stateG env t = .ok .closed) := by
-  have hn : ¬ (t + nsPerMin > instMax) := by omega
+  have _ := hrep
   constructor
   · intro hlt
+    have hn : ¬ (t ≥ instEnd) := by omega
     have h1 : min instEnd t = t := by omega
     have h2 : t < min instEnd (t + nsPerMin) := by simp only [nsPerMin]; omega
     obtain ⟨s, c, tr, hf, hr, _⟩ := first_spec ok hb h2 (Int.min_le_left _ _)
     simp only [stateG, hn, if_false]
     rw [firstIntervalG_clip, h1, hf, pointKind_of_range hr]
   · intro hge
-    simp only [stateG, hn, if_false]
-    rw [firstIntervalG_empty ok (by simp only [nsPerMin]; omega)]
+    have hn : t ≥ instEnd := hge
+    simp only [stateG, hn, if_true]
 
 /-- `next_change` never reports an instant at or beyond `instEnd` — for ANY day level and bound -/
 theorem nextChangeG_lt_end (env : Env) (t c : Int) (h : nextChangeG env t = .ok (some c)) : c < instEnd := by
